@@ -234,7 +234,7 @@ def _r4_order(P: Project, R: Report) -> None:
             n += 1
             R.call_sites += 1
             recv = ast.unparse(c.func.value)
-            R.ob("R4", f"{f.qual}: `{recv}.{handoff}(<message>)` delivers from the event-stream task", False, f"{f.module.rel}:{c.lineno}",
+            R.ob("R4", f"the event-stream side hands a message over by `{recv}.{handoff}(<message>)` instead of delivering it", False, f"{f.module.rel}:{c.lineno}",
                  f"a message read off the event stream is handed to other code for delivery (`{ast.unparse(c)[:70]}`); whatever delivers it runs in another task, so a message that arrived later and is routed directly can reach the read stream first — the relative order of responses and notifications then depends on the carrier",
                  sample=f"R4 {f.qual}: hand-off {recv}.{handoff}")
     # direct routing by the reader side exists at all
